@@ -281,8 +281,25 @@ impl QueryEngine {
         if !self.metrics_table_is_placeholder() {
             schemas.push(self.metrics_table_schema().await.as_ref().clone());
         }
-        let schema = match Schema::try_merge(schemas) {
-            Ok(merged) => Arc::new(merged),
+        let schema = match Schema::try_merge(schemas.clone()) {
+            // Rows of a chunk that lacks a column are NULL there, whatever the chunks that
+            // carry the column declare.
+            Ok(merged) => Arc::new(Schema::new(
+                merged
+                    .fields()
+                    .iter()
+                    .map(|field| {
+                        let everywhere = schemas
+                            .iter()
+                            .all(|schema| schema.index_of(field.name()).is_ok());
+                        if everywhere {
+                            field.as_ref().clone()
+                        } else {
+                            field.as_ref().clone().with_nullable(true)
+                        }
+                    })
+                    .collect::<Vec<_>>(),
+            )),
             // same-named columns of different types: the first chunk decides, as before
             Err(_) => inferred[0].clone(),
         };
